@@ -68,16 +68,8 @@ def r_rep(repo, rep):
             n += 1
             rep.fn(MOD, q)
             txt = norm_text(value)
-            ok = False
-            why = ""
-            if isinstance(value, ast.Call) and norm_text(value.func) in ("Angle.reduce_deg", "Angle.dms2deg"):
-                ok, why = True, "result of " + norm_text(value.func)
-            elif isinstance(value, ast.Attribute) and value.attr == "_deg":
-                ok, why = True, "copy of another Angle's stored value"
-            elif isinstance(value, ast.Constant) and isinstance(value.value, (int, float)) and -360 < value.value < 360:
-                ok, why = True, "literal in range"
-            elif txt.replace(" ", "") == "360.0-abs(self._deg)" and guarded_negative(fn, node):
-                ok, why = True, "360 - |value| on the value < 0 branch (to_positive)"
+            why = reduced_by_construction(m, fn, value, node, 0)
+            ok = why is not None
             if ok:
                 rep.ok("R-REP", site, "`%s`: %s" % (norm_text(node)[:50], why), sample=(n <= 3))
             else:
@@ -131,6 +123,46 @@ def r_rep(repo, rep):
             if isinstance(node, ast.Attribute) and isinstance(node.ctx, ast.Store) and node.attr == "_deg":
                 rep.violation("R-OWN", "%s.%s" % (mn, q2), "foreign-deg-store", "`_deg` is written outside class Angle: " + norm_text(node))
     rep.ok("R-OWN", "package", "`_deg` is stored only inside class Angle")
+
+
+def reduced_by_construction(m, fn, value, at, depth):
+    """reason (str) why the expression is in (-360, 360) by construction, else None.  Accepted: results of the two
+    reducers, another Angle's stored value, literals in range, 360 -|x| / 360 + x of the stored value on its x < 0
+    branch, conditional expressions and local names all of whose bindings qualify, and calls of other methods of the
+    class all of whose return expressions qualify (helpers extracted from the constructor)."""
+    if depth > 3:
+        return None
+    if isinstance(value, ast.Call):
+        f = norm_text(value.func)
+        if f in ("Angle.reduce_deg", "Angle.dms2deg"):
+            return "result of " + f
+        if f.startswith(("Angle.", "self.")) and f.count(".") == 1:
+            callee = m.functions.get(CLS + "." + f.split(".")[1])
+            if callee is not None:
+                rets = [r for r in ast.walk(callee) if isinstance(r, ast.Return)]
+                if rets and all(r.value is not None and reduced_by_construction(m, callee, r.value, r, depth + 1) for r in rets):
+                    return "result of %s, every return of which is reduced" % f
+        return None
+    if isinstance(value, ast.Attribute) and value.attr == "_deg":
+        return "copy of another Angle's stored value"
+    if isinstance(value, ast.Constant) and isinstance(value.value, (int, float)) and not isinstance(value.value, bool) and -360 < value.value < 360:
+        return "literal in range"
+    if isinstance(value, ast.IfExp):
+        a = reduced_by_construction(m, fn, value.body, at, depth + 1)
+        b = reduced_by_construction(m, fn, value.orelse, at, depth + 1)
+        return "both alternatives reduced" if a and b else None
+    if isinstance(value, ast.Name):
+        binds = [n for n in ast.walk(fn) if isinstance(n, ast.Assign) and any(isinstance(t, ast.Name) and t.id == value.id for t in n.targets)]
+        others = [n for n in ast.walk(fn) if isinstance(n, (ast.AugAssign, ast.For)) and isinstance(getattr(n, "target", None), ast.Name)
+                  and n.target.id == value.id]
+        if binds and not others and all(reduced_by_construction(m, fn, b.value, b, depth + 1) for b in binds):
+            return "local bound only to reduced values"
+        return None
+    txt = norm_text(value).replace(" ", "")
+    if txt in ("360.0-abs(self._deg)", "360-abs(self._deg)", "360.0+self._deg", "self._deg+360.0", "360+self._deg", "self._deg+360") \
+            and guarded_negative(fn, at):
+        return "a full turn added to the stored value on its < 0 branch: a value of (-360, 0) becomes one of (0, 360)"
+    return None
 
 
 def guarded_negative(fn, node):
